@@ -490,6 +490,250 @@ theorem dense_decode_error (I : StoreI GS) (hI : DenseAdds I) (IL : StoreI GLow)
 
 end dense
 
+/-! ## Dlow. `CollapsingLowestDenseStore.DecodeAndMergeWith` -/
+
+section low
+open DDS.GenStoreDecode DDS.GenEncoding DDS.Sketch DDS.Codec DDS.GenDense
+open DDS.GenPagSketch (okOr okOr_ok)
+
+theorem CollapsingLowestDenseStore_wrapper_eq (I : StoreI GS) (IL : StoreI GLow) (IH : StoreI GHigh) (fuel : Nat) (s : GLow)
+    (b : List (BitVec 8)) (sf : SubFlag) :
+    @Gen.DenseDecode.CollapsingLowestDenseStore.DecodeAndMergeWith I IL IH fuel s b sf
+      = @DecodeAndMergeWith GLow IL fuel s b sf :=
+  bind_ok_triple _
+
+/-- the regenerated `AddWithCount` with a fuel computed from the receiver (`len(bins) + maxNumBins + 2`, the bound `GenLow.lowFuel`); a panicking call
+    or a non-finite float leaves the receiver as it was -/
+def lowAddWithCount (g : GLow) (i : Int) (c : F64) : GLow :=
+  match ratOfF64 c with
+  | some w => okOr (Gen.Dense.CollapsingLowestDenseStore.AddWithCount (g.DenseStore.bins.length + g.maxNumBins.toNat + 2) g i w) g
+  | none => g
+
+def lowAdd (g : GLow) (i : Int) : GLow :=
+  okOr (Gen.Dense.CollapsingLowestDenseStore.Add (g.DenseStore.bins.length + g.maxNumBins.toNat + 2) g i) g
+
+/-- what the theorems need of the `StoreI` instance handed to the wrapper -/
+structure LowAdds (I : StoreI GLow) : Prop where
+  addWithCount : ∀ g i c, I.AddWithCount g i c = lowAddWithCount g i c
+  add : ∀ g i, I.Add g i = lowAdd g i
+
+/-- the regenerated store is the image of the model store of kind `low n` -/
+def LRel (n : Nat) (g : GLow) (st : Store) : Prop :=
+  ∃ d : DStore, g = toLow (n : Int) d ∧ st = .d d ∧ d.kind = .low n
+
+theorem lowAddWithCount_fin (n : Nat) (d : DStore) (hk : d.kind = .low n) (i : Int) (w : Rat) :
+    LRel n (lowAddWithCount (toLow (n : Int) d) i (.fin w)) (((Store.d d).addWithCount i w).getD (.d d)) := by
+  simp only [lowAddWithCount, ratOfF64, Store.addWithCount]
+  rw [GenLow.addWithCount_rel _ n d i w hk (by simp [GenLow.lowFuel])]
+  cases hm : d.addWithCount i w with
+  | none => exact ⟨d, rfl, rfl, hk⟩
+  | some d' => exact ⟨d', rfl, rfl, GenLow.addWithCount_kind d d' n i w hk hm⟩
+
+theorem lowAdd_rel (n : Nat) (d : DStore) (hk : d.kind = .low n) (i : Int) :
+    LRel n (lowAdd (toLow (n : Int) d) i) (((Store.d d).addWithCount i 1).getD (.d d)) := by
+  simp only [lowAdd, Store.addWithCount]
+  rw [GenLow.add_rel _ n d i hk (by simp [GenLow.lowFuel])]
+  cases hm : d.addWithCount i 1 with
+  | none => exact ⟨d, rfl, rfl, hk⟩
+  | some d' => exact ⟨d', rfl, rfl, GenLow.addWithCount_kind d d' n i 1 hk hm⟩
+
+theorem LRel_step (I : StoreI GLow) (hI : LowAdds I) (n : Nat) (g : GLow) (st : Store) (c : Call)
+    (h : LRel n g st) : LRel n (@applyCall GLow I g c) (applyCall st c) := by
+  obtain ⟨d, rfl, rfl, hk⟩ := id h
+  obtain ⟨i, oc⟩ := c
+  cases oc with
+  | some c =>
+    show LRel n (I.AddWithCount _ i c) _
+    rw [hI.addWithCount]
+    cases c with
+    | fin w => exact lowAddWithCount_fin n d hk i w
+    | pinf => exact h
+    | ninf => exact h
+    | nan => exact h
+  | none =>
+    show LRel n (I.Add _ i) _
+    rw [hI.add]
+    exact lowAdd_rel n d hk i
+
+/-- **parametricity**: the wrapper on the image of a model store of kind `low n` and the generic decoder on
+    the model store agree — every input, layout and fuel -/
+theorem low_decode_sim (I : StoreI GS) (IL : StoreI GLow) (IH : StoreI GHigh) (hI : LowAdds IL)
+    (n : Nat) (d : DStore) (hk : d.kind = .low n) (fuel : Nat) (b : List (BitVec 8)) (sf : SubFlag) :
+    ResRel (LRel n) (@Gen.DenseDecode.CollapsingLowestDenseStore.DecodeAndMergeWith I IL IH fuel (toLow (n : Int) d) b sf)
+      (DecodeAndMergeWith fuel (Store.d d) b sf) := by
+  rw [CollapsingLowestDenseStore_wrapper_eq]
+  exact @decode_param_on GLow Store IL _ (LRel n) (fun _ => True)
+    (fun x st c h _ => LRel_step IL hI n x st c h)
+    fuel (toLow (n : Int) d) (.d d) b sf ⟨d, rfl, rfl, hk⟩ (fun _ _ _ _ _ _ => trivial)
+
+theorem low_decode_ok (I : StoreI GS) (IL : StoreI GLow) (IH : StoreI GHigh) (hI : LowAdds IL)
+    (n : Nat) (d : DStore) (hk : d.kind = .low n) (st' : Store) (sub : Nat) (b : List (BitVec 8)) (rest : Bytes)
+    (fuel : Nat) (hf : b.length + 9 ≤ fuel) (hw : NoWrap sub (nb b))
+    (hm : decodeStore (.d d) sub (nb b) = some (.ok (st', rest))) :
+    ∃ d', st' = .d d' ∧ d'.kind = .low n ∧
+      @Gen.DenseDecode.CollapsingLowestDenseStore.DecodeAndMergeWith I IL IH fuel (toLow (n : Int) d) b (subflag sub)
+        = .ok (toLow (n : Int) d', bn rest, GoErr.nil) := by
+  obtain ⟨x', ⟨d', rfl, rfl, hk'⟩, hx⟩ := (low_decode_sim I IL IH hI n d hk fuel b (subflag sub)).of_ok
+    (DecodeAndMergeWith_ok (.d d) st' sub b rest fuel hf hw hm)
+  exact ⟨d', rfl, hk', hx⟩
+
+theorem low_decode_error (I : StoreI GS) (IL : StoreI GLow) (IH : StoreI GHigh) (hI : LowAdds IL)
+    (n : Nat) (d : DStore) (hk : d.kind = .low n) (sub : Nat) (hsub : sub < 64) (b : List (BitVec 8)) (e : SkErr)
+    (fuel : Nat) (hf : b.length + 9 ≤ fuel) (hm : decodeStore (.d d) sub (nb b) = some (.error e)) :
+    (KnownSub sub ∧ e = .eof ∧ ∃ g' b',
+      @Gen.DenseDecode.CollapsingLowestDenseStore.DecodeAndMergeWith I IL IH fuel (toLow (n : Int) d) b (subflag sub)
+        = .ok (g', b', GoErr.eof)) ∨
+    (¬ KnownSub sub ∧ e = .unknownBinEncoding ∧
+      @Gen.DenseDecode.CollapsingLowestDenseStore.DecodeAndMergeWith I IL IH fuel (toLow (n : Int) d) b (subflag sub)
+        = .ok (toLow (n : Int) d, b, GoErr.named "unknown bin encoding")) := by
+  rw [CollapsingLowestDenseStore_wrapper_eq]
+  exact @decode_model_error GLow IL (LRel n) (fun _ => True)
+    (fun x st c h _ => LRel_step IL hI n x st c h)
+    (toLow (n : Int) d) (.d d) ⟨d, rfl, rfl, hk⟩ sub hsub b e fuel hf (fun _ _ _ _ _ _ => trivial) hm
+
+/-- an instance meeting `LowAdds` exists (the methods the decoder does not call are inert here) -/
+@[reducible] def lowI : StoreI GLow where
+  Add := lowAdd
+  AddWithCount := lowAddWithCount
+  Copy g := g
+  Clear g := g
+  IsEmpty g := Gen.Dense.DenseStore.IsEmpty g.DenseStore
+  MaxIndex g := Gen.Dense.DenseStore.MaxIndex g.DenseStore
+  MinIndex g := Gen.Dense.DenseStore.MinIndex g.DenseStore
+  TotalCount g := .fin (Gen.Dense.DenseStore.TotalCount g.DenseStore)
+  KeyAtRank _ _ := 0
+  MergeWith g _ := g
+  Reweight g _ := (g, GoErr.nil)
+  Encode g b _ := (g, b)
+  ForEachList _ := []
+  DecodeAndMergeWith g b _ := (g, b, GoErr.nil)
+
+theorem lowI_adds : LowAdds lowI := ⟨fun _ _ _ => rfl, fun _ _ => rfl⟩
+
+end low
+
+/-! ## Dhigh. `CollapsingHighestDenseStore.DecodeAndMergeWith` -/
+
+section high
+open DDS.GenStoreDecode DDS.GenEncoding DDS.Sketch DDS.Codec DDS.GenDense
+open DDS.GenPagSketch (okOr okOr_ok)
+
+theorem CollapsingHighestDenseStore_wrapper_eq (I : StoreI GS) (IL : StoreI GLow) (IH : StoreI GHigh) (fuel : Nat) (s : GHigh)
+    (b : List (BitVec 8)) (sf : SubFlag) :
+    @Gen.DenseDecode.CollapsingHighestDenseStore.DecodeAndMergeWith I IL IH fuel s b sf
+      = @DecodeAndMergeWith GHigh IH fuel s b sf :=
+  bind_ok_triple _
+
+/-- the regenerated `AddWithCount` with a fuel computed from the receiver (`GenDense.extendFuel` at the index); a panicking call
+    or a non-finite float leaves the receiver as it was -/
+def highAddWithCount (g : GHigh) (i : Int) (c : F64) : GHigh :=
+  match ratOfF64 c with
+  | some w => okOr (Gen.Dense.CollapsingHighestDenseStore.AddWithCount (extendFuel (ofGen g.DenseStore) i i) g i w) g
+  | none => g
+
+def highAdd (g : GHigh) (i : Int) : GHigh :=
+  okOr (Gen.Dense.CollapsingHighestDenseStore.Add (extendFuel (ofGen g.DenseStore) i i) g i) g
+
+/-- what the theorems need of the `StoreI` instance handed to the wrapper -/
+structure HighAdds (I : StoreI GHigh) : Prop where
+  addWithCount : ∀ g i c, I.AddWithCount g i c = highAddWithCount g i c
+  add : ∀ g i, I.Add g i = highAdd g i
+
+/-- the regenerated store is the image of the model store of kind `high n` -/
+def HRel (n : Nat) (g : GHigh) (st : Store) : Prop :=
+  ∃ d : DStore, g = toHigh (n : Int) d ∧ st = .d d ∧ d.kind = .high n
+
+theorem highAddWithCount_fin (n : Nat) (d : DStore) (hk : d.kind = .high n) (i : Int) (w : Rat) :
+    HRel n (highAddWithCount (toHigh (n : Int) d) i (.fin w)) (((Store.d d).addWithCount i w).getD (.d d)) := by
+  simp only [highAddWithCount, ratOfF64, Store.addWithCount]
+  rw [GenHigh.addWithCount_rel (extendFuel (ofGen (toHigh (n : Int) d).DenseStore) i i) n d i w hk (Nat.le_refl _)]
+  cases hm : d.addWithCount i w with
+  | none => exact ⟨d, rfl, rfl, hk⟩
+  | some d' => exact ⟨d', rfl, rfl, GenHigh.addWithCount_kind n d d' i w hk hm⟩
+
+theorem highAdd_rel (n : Nat) (d : DStore) (hk : d.kind = .high n) (i : Int) :
+    HRel n (highAdd (toHigh (n : Int) d) i) (((Store.d d).addWithCount i 1).getD (.d d)) := by
+  simp only [highAdd, Store.addWithCount]
+  rw [GenHigh.add_rel (extendFuel (ofGen (toHigh (n : Int) d).DenseStore) i i) n d i hk (Nat.le_refl _)]
+  cases hm : d.addWithCount i 1 with
+  | none => exact ⟨d, rfl, rfl, hk⟩
+  | some d' => exact ⟨d', rfl, rfl, GenHigh.addWithCount_kind n d d' i 1 hk hm⟩
+
+theorem HRel_step (I : StoreI GHigh) (hI : HighAdds I) (n : Nat) (g : GHigh) (st : Store) (c : Call)
+    (h : HRel n g st) : HRel n (@applyCall GHigh I g c) (applyCall st c) := by
+  obtain ⟨d, rfl, rfl, hk⟩ := id h
+  obtain ⟨i, oc⟩ := c
+  cases oc with
+  | some c =>
+    show HRel n (I.AddWithCount _ i c) _
+    rw [hI.addWithCount]
+    cases c with
+    | fin w => exact highAddWithCount_fin n d hk i w
+    | pinf => exact h
+    | ninf => exact h
+    | nan => exact h
+  | none =>
+    show HRel n (I.Add _ i) _
+    rw [hI.add]
+    exact highAdd_rel n d hk i
+
+/-- **parametricity**: the wrapper on the image of a model store of kind `high n` and the generic decoder on
+    the model store agree — every input, layout and fuel -/
+theorem high_decode_sim (I : StoreI GS) (IL : StoreI GLow) (IH : StoreI GHigh) (hI : HighAdds IH)
+    (n : Nat) (d : DStore) (hk : d.kind = .high n) (fuel : Nat) (b : List (BitVec 8)) (sf : SubFlag) :
+    ResRel (HRel n) (@Gen.DenseDecode.CollapsingHighestDenseStore.DecodeAndMergeWith I IL IH fuel (toHigh (n : Int) d) b sf)
+      (DecodeAndMergeWith fuel (Store.d d) b sf) := by
+  rw [CollapsingHighestDenseStore_wrapper_eq]
+  exact @decode_param_on GHigh Store IH _ (HRel n) (fun _ => True)
+    (fun x st c h _ => HRel_step IH hI n x st c h)
+    fuel (toHigh (n : Int) d) (.d d) b sf ⟨d, rfl, rfl, hk⟩ (fun _ _ _ _ _ _ => trivial)
+
+theorem high_decode_ok (I : StoreI GS) (IL : StoreI GLow) (IH : StoreI GHigh) (hI : HighAdds IH)
+    (n : Nat) (d : DStore) (hk : d.kind = .high n) (st' : Store) (sub : Nat) (b : List (BitVec 8)) (rest : Bytes)
+    (fuel : Nat) (hf : b.length + 9 ≤ fuel) (hw : NoWrap sub (nb b))
+    (hm : decodeStore (.d d) sub (nb b) = some (.ok (st', rest))) :
+    ∃ d', st' = .d d' ∧ d'.kind = .high n ∧
+      @Gen.DenseDecode.CollapsingHighestDenseStore.DecodeAndMergeWith I IL IH fuel (toHigh (n : Int) d) b (subflag sub)
+        = .ok (toHigh (n : Int) d', bn rest, GoErr.nil) := by
+  obtain ⟨x', ⟨d', rfl, rfl, hk'⟩, hx⟩ := (high_decode_sim I IL IH hI n d hk fuel b (subflag sub)).of_ok
+    (DecodeAndMergeWith_ok (.d d) st' sub b rest fuel hf hw hm)
+  exact ⟨d', rfl, hk', hx⟩
+
+theorem high_decode_error (I : StoreI GS) (IL : StoreI GLow) (IH : StoreI GHigh) (hI : HighAdds IH)
+    (n : Nat) (d : DStore) (hk : d.kind = .high n) (sub : Nat) (hsub : sub < 64) (b : List (BitVec 8)) (e : SkErr)
+    (fuel : Nat) (hf : b.length + 9 ≤ fuel) (hm : decodeStore (.d d) sub (nb b) = some (.error e)) :
+    (KnownSub sub ∧ e = .eof ∧ ∃ g' b',
+      @Gen.DenseDecode.CollapsingHighestDenseStore.DecodeAndMergeWith I IL IH fuel (toHigh (n : Int) d) b (subflag sub)
+        = .ok (g', b', GoErr.eof)) ∨
+    (¬ KnownSub sub ∧ e = .unknownBinEncoding ∧
+      @Gen.DenseDecode.CollapsingHighestDenseStore.DecodeAndMergeWith I IL IH fuel (toHigh (n : Int) d) b (subflag sub)
+        = .ok (toHigh (n : Int) d, b, GoErr.named "unknown bin encoding")) := by
+  rw [CollapsingHighestDenseStore_wrapper_eq]
+  exact @decode_model_error GHigh IH (HRel n) (fun _ => True)
+    (fun x st c h _ => HRel_step IH hI n x st c h)
+    (toHigh (n : Int) d) (.d d) ⟨d, rfl, rfl, hk⟩ sub hsub b e fuel hf (fun _ _ _ _ _ _ => trivial) hm
+
+/-- an instance meeting `HighAdds` exists (the methods the decoder does not call are inert here) -/
+@[reducible] def highI : StoreI GHigh where
+  Add := highAdd
+  AddWithCount := highAddWithCount
+  Copy g := g
+  Clear g := g
+  IsEmpty g := Gen.Dense.DenseStore.IsEmpty g.DenseStore
+  MaxIndex g := Gen.Dense.DenseStore.MaxIndex g.DenseStore
+  MinIndex g := Gen.Dense.DenseStore.MinIndex g.DenseStore
+  TotalCount g := .fin (Gen.Dense.DenseStore.TotalCount g.DenseStore)
+  KeyAtRank _ _ := 0
+  MergeWith g _ := g
+  Reweight g _ := (g, GoErr.nil)
+  Encode g b _ := (g, b)
+  ForEachList _ := []
+  DecodeAndMergeWith g b _ := (g, b, GoErr.nil)
+
+theorem highI_adds : HighAdds highI := ⟨fun _ _ _ => rfl, fun _ _ => rfl⟩
+
+end high
+
 /-! ## E. `SparseStore.MergeWith(store Store)` for an argument of ANY store type -/
 
 section sparseMerge
